@@ -15,7 +15,7 @@ use serde::{Deserialize, Serialize};
 use serde_json::json;
 use std::sync::{Arc, Mutex, OnceLock};
 
-pub const RULE: &str = "(position with <= 64 legal moves: few-piece endgames, cage/pin themes, small placements, reachable walks; depth 2..5 (5 only for <= 3 men, 4 for <= 4 men, 3 for <= 8 men); 0..3 prior searches run sequentially in a 1-thread pool to fix the initial cache contents) x (rayon pool of 2/3/4/16/64 threads uncontrolled; pool of 64 threads under the controlled scheduler with a generated strategy: in-order, permuted run-to-completion, PCT priorities with change points, round-robin quantum, random walk, explicit single preemptions of a run-to-completion order; when a run shows a cache entry that was stored and later replaced by a different value, further single-preemption schedules are aimed at those store steps - the observation only directs the search, the verdict is always the comparison below). The scheduler (a SearchObserver installed through the cfg(chess_verif) hooks) parks every root-move task at TaskBegin, then lets exactly one task run at a time and hands over only at shared-cache reads / writes and task ends, so the interleaving of cache accesses is a generated input. Oracle: (move tuple, last_score) of every run == the 1-thread in-order run on a freshly prepared identical context; a panic under any schedule is a violation; if the tasks do not all reach the barrier in time the scheduler releases them (run counted as given up, result still compared); a hang is caught by the watchdog (exit 2). Non-trivial = the controlled run switched tasks at a cache access at least once and saw at least one cache hit on an entry written by another task; distinct = (position, prior, strategy) hash.";
+pub const RULE: &str = "(position with <= 64 legal moves: few-piece endgames, cage/pin themes, small placements, reachable walks; depth 2..5 (5 only for <= 3 men, 4 for <= 4 men, 3 for <= 8 men); 0..3 prior searches run sequentially in a 1-thread pool to fix the initial cache contents) x (rayon pool of 2/3/4/16/64 threads uncontrolled; pool of 64 threads under the controlled scheduler with a generated strategy: in-order, permuted run-to-completion, PCT priorities with change points, round-robin quantum, random walk, explicit single preemptions of a run-to-completion order; when a run shows a cache entry that was stored and later replaced by a different value, further single-preemption schedules are aimed at those store steps - the observation only directs the search, the verdict is always the comparison below). The scheduler (a SearchObserver installed through the cfg(chess_verif) hooks) parks every root-move task at TaskBegin, then lets exactly one task run at a time and hands over only at shared-cache reads / writes and task ends, so the interleaving of cache accesses is a generated input. Oracle: (move tuple, last_score) of every run == the 1-thread in-order run on a freshly prepared identical context; a panic under any schedule is a violation; if the tasks do not all reach the barrier in time the scheduler releases them (run counted as given up, result still compared); a hang is caught by the watchdog (exit 2). Worker counts: thousands of 3..5-man endgames at depth 4..5 (the depth at which a transposition between root-move subtrees is an interior node with a narrowed window), each on a new context (after 0..1 prior searches), searched by uncontrolled pools of 1 and 2 workers (a quarter of the cases also by one of 3/4/16/64 workers); every answer must equal the 1-worker answer (non-trivial there = depth >= 4 with at least two root tasks). Non-trivial = the controlled run switched tasks at a cache access at least once and saw at least one cache hit on an entry written by another task; distinct = (position, prior, strategy) hash.";
 
 #[derive(Clone, Debug, Serialize, Deserialize)]
 pub struct SchedCase {
@@ -108,7 +108,7 @@ fn prepare(pos: &Pos, depth: u8, prior: u8) -> Option<(Prepared, Pos)> {
         ctx: SearchContext::new(depth),
     };
     let mut cur = pos.clone();
-    let p1 = pool(1);
+    let p1 = local_pool(1);
     for _ in 0..prior {
         if !cur.has_legal_move(cur.side) {
             return None;
@@ -326,6 +326,130 @@ impl Prop for C09Schedules {
     }
 }
 
+/// Many tiny endgames at the deepest affordable depth, each searched on a brand-new context by
+/// pools of 1 and 2 workers and, in a quarter of the cases, one of 3/4/16/64 workers (uncontrolled): the answers must all be the 1-worker
+/// answer. Cheap, so it reaches thousands of positions where the controlled check reaches
+/// hundreds.
+pub struct C09WorkerCounts;
+
+fn local_pool(n: usize) -> Arc<rayon::ThreadPool> {
+    use std::cell::RefCell;
+    use std::collections::BTreeMap;
+    thread_local! {
+        static POOLS: RefCell<BTreeMap<usize, Arc<rayon::ThreadPool>>> = RefCell::new(BTreeMap::new());
+    }
+    POOLS.with(|m| {
+        m.borrow_mut()
+            .entry(n)
+            .or_insert_with(|| Arc::new(rayon::ThreadPoolBuilder::new().num_threads(n).build().expect("thread pool")))
+            .clone()
+    })
+}
+
+#[derive(Clone, Debug, Serialize, Deserialize)]
+pub struct CountsCase {
+    pub fen: String,
+    pub depth: u8,
+    pub prior: u8,
+}
+
+impl Prop for C09WorkerCounts {
+    type Case = CountsCase;
+    fn name(&self) -> &'static str {
+        "C09/worker-counts"
+    }
+    fn max_shrink_iters(&self) -> u32 {
+        150
+    }
+    fn strategy(&self, _tier: Tier) -> BoxedStrategy<CountsCase> {
+        let zero = |mut p: Pos| {
+            p.half = 0;
+            p.fen()
+        };
+        (
+            prop_oneof![
+                8 => gen::endgame(1).prop_map(move |r| zero(gen::build(&r))),
+                4 => gen::endgame(2).prop_map(move |r| zero(gen::build(&r))),
+                2 => gen::endgame(3).prop_map(move |r| zero(gen::build(&r))),
+                2 => gen::pawn_race().prop_map(move |r| zero(gen::build(&r))),
+                1 => gen::mating_material(),
+            ],
+            prop_oneof![1 => Just(4u8), 4 => Just(5u8)],
+            prop_oneof![3 => Just(0u8), 1 => Just(1u8)],
+        )
+            .prop_map(|(fen, depth, prior)| CountsCase { fen, depth, prior })
+            .boxed()
+    }
+    fn cases(&self, tier: Tier) -> u32 {
+        tier.pick(5_600, 140_000)
+    }
+    fn test(&self, c: &CountsCase, st: &mut Stats) -> TestResult {
+        let mut pos = Pos::from_fen(&c.fen).map_err(Failure::new)?;
+        pos.half = 0;
+        let depth = match pos.men() {
+            0..=3 => c.depth,
+            // depth 5 with four men costs ten times the three-men search: one case in eight
+            4 if pos.fingerprint() % 8 == 0 => c.depth,
+            4 | 5 => c.depth.min(4),
+            _ => 3,
+        };
+        let (mut base, root) = match prepare(&pos, depth, c.prior) {
+            Some(x) => x,
+            None => return Ok(()),
+        };
+        let p1 = local_pool(1);
+        let base_mv = match no_panic(|| p1.install(|| alpha_beta_search(&mut base.ctx, &mut base.board, &mut base.gen))) {
+            Ok(Ok(m)) => mv_of(&m),
+            Ok(Err(e)) => return Err(fail_pos(format!("1-thread search failed: {:?}", e), &root)),
+            Err(m) => return Err(fail_pos(format!("1-thread search panicked: {}", m), &root)),
+        };
+        let base_score = base.ctx.last_score();
+        st.count("baseline_runs", 1);
+        let mut differing_tasks = false;
+        // 2 workers always, one larger pool by turns; small pools are per calling thread so
+        // that the shards of this check do not queue up behind one shared 2-thread pool
+        let other: usize = [3usize, 4, 16, 64][(root.fingerprint() >> 12) as usize % 4];
+        let sizes: &[usize] = if (root.fingerprint() >> 20) % 4 == 0 { &[2, other] } else { &[2] };
+        for &size in sizes {
+            let (mut run, _) = prepare(&pos, depth, c.prior).ok_or_else(|| Failure::new("prepare not reproducible"))?;
+            let p = if size <= 4 { local_pool(size) } else { pool(size) };
+            let r = no_panic(|| p.install(|| alpha_beta_search(&mut run.ctx, &mut run.board, &mut run.gen)));
+            st.count("uncontrolled_runs", 1);
+            st.evaluations += 1;
+            match r {
+                Ok(Ok(m)) => {
+                    let got = (mv_of(&m), run.ctx.last_score());
+                    if got != (base_mv, base_score) {
+                        return Err(Failure::new(format!(
+                            "uncontrolled {}-thread run returned ({}, {:?}) but the 1-thread run returned ({}, {:?}) for {} at depth {} after {} prior searches",
+                            size, mv_text(&got.0), got.1, mv_text(&base_mv), base_score, root.fen(), depth, c.prior
+                        ))
+                        .with(json!({"fen": root.fen(), "seed_fen": pos.fen(), "threads": size})));
+                    }
+                    // how much of the work was shared is a fact about the schedule: the node
+                    // counts of two pool sizes differ when tasks saw each other's entries
+                    if run.ctx.searched_position_count() != base.ctx.searched_position_count() {
+                        differing_tasks = true;
+                    }
+                }
+                Ok(Err(e)) => return Err(fail_pos(format!("{}-thread search failed: {:?}", size, e), &root)),
+                Err(m) => return Err(fail_pos(format!("{}-thread search panicked: {}", size, m), &root)),
+            }
+        }
+        st.label(&format!("depth-{}", depth));
+        st.label(&format!("{}-men", root.men()));
+        if differing_tasks {
+            st.label("node-count-differs-between-pool-sizes");
+        }
+        if depth >= 4 && root.legal_moves().len() >= 2 {
+            st.nontrivial(root.fingerprint() ^ ((depth as u64) << 56) ^ ((c.prior as u64) << 60), || {
+                json!({"fen": root.fen(), "depth": depth, "prior_searches": c.prior, "pools": sizes, "root_tasks": root.legal_moves().len()})
+            });
+        }
+        Ok(())
+    }
+}
+
 pub fn checks() -> Vec<Box<dyn DynCheck>> {
-    vec![Box::new(C09Schedules)]
+    vec![Box::new(C09Schedules), Box::new(C09WorkerCounts)]
 }
